@@ -9,6 +9,22 @@ def repo_commits(prefix):
     return [l.split()[0] for l in out.splitlines() if l.split(" ", 1)[1].startswith(prefix)]
 
 CLAIMED = {
+ "C01": dict(
+   text=("Lean 4 composition theorem MT.C01.pipeline_sound: for every list of well-formed observed values at one position, every "
+         "max_typed_dict_size, every rewriter configuration of the quantifier (none / one shipped rewriter / default chain) and every list "
+         "of stored rows whose members are exactly the encodings of the per-call types (any order, any multiplicity), the type stub "
+         "generation emits - decode (skipping undecodable rows), merge, rewrite - admits every observed value; with emitted_is_traced / "
+         "generator_annotation / plain_annotation for what the strategy flags put at the position. It chains C04 (getType / shrink "
+         "soundness, tight reading of Any from C05), C07 (rewriters never narrow), C08 (round trip) and C13. The last step - the rendered "
+         "text, evaluated with the stub's own names, is that type - is evaluated on every generated stub, not proved. The check runs "
+         "generated programs under monkeytype.trace into a real SQLiteStore, runs `stub` through cli.main for k x rewriter x flags, "
+         "evaluates the stub text with only the names it provides and tests every value the program reported against its position's "
+         "annotation with the reference conformance oracle."),
+   ref="DESIGN.md section 4 C01",
+   note=("partial: rendering/evaluation of the text is observed (C11 RenderedDenotes is stated, not proved); hypotheses of pipeline_sound: values "
+         "well-formed, types storable (classes importable under their own names) and normal; histories below the query limit. One open finding "
+         "shared with C11 (generated class-name collision)"),
+   technique="Lean 4 proof (composition of the C04/C05/C07/C08/C13 theorems) + end-to-end differential runs of the real tracer, store and CLI against a ground-truth recorder"),
  "C04": dict(
    text=("Lean 4 theorems over a hand-written model of get_type/shrink_types/Union/TypedDict merge: for every list of "
          "well-formed values, every nesting and every k the inferred type admits every value (MT.C04.infer_sound), is well-formed, "
